@@ -43,6 +43,7 @@ ENul(o)        == [op |-> o]                   \* LENGTH, KEYS, REVERSE, UNIQUE,
 ECmp(g, oe, l, r) == [op |-> "COMPARE", l |-> l, r |-> r, greater |-> g, oreq |-> oe]
 ERecurse(keys) == [op |-> "RECURSIVE_DESCENT", keys |-> keys]
 EFlatten(n)    == [op |-> "FLATTEN_BY", depth |-> n]
+EWith(p, u)    == [op |-> "WITH", l |-> p, r |-> u]
 EVar(name)     == [op |-> "GET_VARIABLE", name |-> name]
 EAs(src, name, body, isref) == EBin("PIPE", [op |-> "ASSIGN_VARIABLE", l |-> src, r |-> EVar(name), isref |-> isref], body)
 EReduce(src, name, init, body) == EBin("REDUCE", [op |-> "ASSIGN_VARIABLE", l |-> src, r |-> EVar(name), isref |-> FALSE], EBin("BLOCK", init, body))
@@ -358,11 +359,15 @@ FlattenV(v, depth) ==
   ELSE SeqV(FlatMap(LAMBDA x : IF x.k = "seq" THEN FlattenV(x, depth - 1).e ELSE <<x>>, v.e))
 
 \* recursive descent (pre-order); keys = TRUE for `...`
+\* the KEY node of the map entry at path p of the document: a string to every operator that reads values; `del` of it
+\* removes the entry, `is_key` knows it
+KeyItem(p, k) == [in |-> FALSE, v |-> StrV(k), sub |-> <<>>, keyat |-> p]
+IsKeyItem(c) == ~c.in /\ "keyat" \in DOMAIN c
 RECURSIVE Descend(_,_,_)
 Descend(doc, c, keys) ==
   LET v == ValOf(doc, c) IN
   <<c>> \o
-  (CASE v.k = "map" -> FlatMap(LAMBDA i : (IF keys THEN <<Det(StrV(v.m[i][1]))>> ELSE <<>>) \o Descend(doc, Child(c, v, PK(v.m[i][1])), keys), Upto(Len(v.m)))
+  (CASE v.k = "map" -> FlatMap(LAMBDA i : (IF keys THEN <<(IF c.in THEN KeyItem(c.p \o <<PK(v.m[i][1])>>, v.m[i][1]) ELSE Det(StrV(v.m[i][1])))>> ELSE <<>>) \o Descend(doc, Child(c, v, PK(v.m[i][1])), keys), Upto(Len(v.m)))
      [] v.k = "seq" -> FlatMap(LAMBDA i : Descend(doc, Child(c, v, PI(i - 1)), keys), Upto(Len(v.e)))
      [] OTHER -> <<>>)
 
@@ -681,10 +686,11 @@ EvMore(e, s) ==
          \* `del(sel)`: the selection is evaluated read-only on the whole context; precisely the selected nodes disappear
          \* (from the document, or from the detached container they sit in); the context is returned
          LET Sel == Ev(e.r, RO(s)) IN IF ~Ok(Sel) THEN Sel ELSE
-         IF \E i \in DOMAIN Sel.ctx : (IF Sel.ctx[i].in THEN Sel.ctx[i].p = <<>> ELSE Sel.ctx[i].sub = <<>>) THEN Fail(s, "unspec")    \* deleting a top-level node
+         IF \E i \in DOMAIN Sel.ctx : (IF Sel.ctx[i].in THEN Sel.ctx[i].p = <<>> ELSE Sel.ctx[i].sub = <<>> /\ ~IsKeyItem(Sel.ctx[i])) THEN Fail(s, "unspec")    \* deleting a top-level node
          ELSE IF \E i, j \in DOMAIN s.ctx : i # j /\ ~s.ctx[i].in /\ ~s.ctx[j].in /\ s.ctx[i].v = s.ctx[j].v THEN Fail(s, "unspec")
          ELSE LET docP == {Sel.ctx[i].p : i \in {j \in DOMAIN Sel.ctx : Sel.ctx[j].in}}
-                  detP(c) == {Sel.ctx[i].sub : i \in {j \in DOMAIN Sel.ctx : ~Sel.ctx[j].in /\ Sel.ctx[j].v = c.v}}
+                          \cup {Sel.ctx[i].keyat : i \in {j \in DOMAIN Sel.ctx : IsKeyItem(Sel.ctx[j])}}       \* a selected KEY takes its entry with it
+                  detP(c) == {Sel.ctx[i].sub : i \in {j \in DOMAIN Sel.ctx : ~Sel.ctx[j].in /\ ~IsKeyItem(Sel.ctx[j]) /\ Sel.ctx[j].v = c.v}}
               IN [s EXCEPT !.doc = DelPaths(Sel.doc, docP),
                            !.ctx = [i \in DOMAIN s.ctx |-> IF s.ctx[i].in THEN s.ctx[i] ELSE [s.ctx[i] EXCEPT !.v = DelPaths(@, detP(s.ctx[i]))]]]
     [] e.op = "GET_PATH" ->
@@ -692,7 +698,7 @@ EvMore(e, s) ==
          ELSE [s EXCEPT !.ctx = [i \in DOMAIN s.ctx |-> Det(SeqV([j \in DOMAIN s.ctx[i].p |-> IF s.ctx[i].p[j].t = "k" THEN StrV(s.ctx[i].p[j].key) ELSE IntV(s.ctx[i].p[j].idx)]))]]
     [] e.op = "GET_KEY" ->
          IF \E i \in DOMAIN s.ctx : ~s.ctx[i].in THEN Fail(s, "unspec")
-         ELSE [s EXCEPT !.ctx = FlatMap(LAMBDA c : IF c.p = <<>> THEN <<>> ELSE LET l == c.p[Len(c.p)] IN <<Det(IF l.t = "k" THEN StrV(l.key) ELSE IntV(l.idx))>>, s.ctx)]
+         ELSE [s EXCEPT !.ctx = FlatMap(LAMBDA c : IF c.p = <<>> THEN <<>> ELSE LET l == c.p[Len(c.p)] IN <<(IF l.t = "k" THEN KeyItem(c.p, l.key) ELSE Det(IntV(l.idx)))>>, s.ctx)]
     [] e.op = "GET_PARENT" ->
          IF \E i \in DOMAIN s.ctx : ~s.ctx[i].in THEN Fail(s, "unspec")
          ELSE [s EXCEPT !.ctx = FlatMap(LAMBDA c : IF c.p = <<>> THEN <<>> ELSE <<InDoc(SubSeq(c.p, 1, Len(c.p) - 1))>>, s.ctx)]
@@ -833,10 +839,10 @@ EvExt(e, s) ==
          IF \E i \in DOMAIN s.ctx : ValOf(s.doc, s.ctx[i]).k # "str" THEN Fail(s, "err")
          ELSE [s EXCEPT !.ctx = [i \in DOMAIN s.ctx |-> Det(StrV(TrimAtoms(ValOf(s.doc, s.ctx[i]).s)))]]
     [] e.op = "IS_KEY" ->
-         \* a node of the document reached as a value is not a key; keys yielded by `...` are detached strings here, and a
+         \* a node of the document reached as a value is not a key; the keys yielded by `...` and `key` are; any other
          \* detached value does not say whether it was a key
-         IF \E i \in DOMAIN s.ctx : ~s.ctx[i].in THEN Fail(s, "unspec")
-         ELSE [s EXCEPT !.ctx = [i \in DOMAIN s.ctx |-> Det(BoolV(FALSE))]]
+         IF \E i \in DOMAIN s.ctx : ~s.ctx[i].in /\ ~IsKeyItem(s.ctx[i]) THEN Fail(s, "unspec")
+         ELSE [s EXCEPT !.ctx = [i \in DOMAIN s.ctx |-> Det(BoolV(IsKeyItem(s.ctx[i])))]]
     [] e.op \in {"GET_DOCUMENT_INDEX", "GET_FILE_INDEX"} ->
          \* one document of one file is evaluated here (Stream.tla has several): position 0
          IF \E i \in DOMAIN s.ctx : ~s.ctx[i].in THEN Fail(s, "unspec")
@@ -848,6 +854,18 @@ EvExt(e, s) ==
          IF e.str THEN [s EXCEPT !.ctx = <<Det(StrV(IF I = {} THEN <<>> ELSE EnvTable[CHOOSE i \in I : TRUE].text))>>]
          ELSE IF I = {} THEN Fail(s, "err")
          ELSE [s EXCEPT !.ctx = <<Det(EnvTable[CHOOSE i \in I : TRUE].val)>>]
+    [] e.op = "WITH" ->
+         \* with(path; update): the path is evaluated on the whole context IN THE CALLER'S MODE (what it addresses is
+         \* created, exactly as on the left of an assignment); the update is then run on every addressed node in turn, its
+         \* results are dropped and the context is handed back
+         LET L == Ev(e.l, s) IN IF ~Ok(L) THEN L ELSE
+         IF \E i \in DOMAIN L.ctx : ~L.ctx[i].in THEN Fail(s, "unspec")                     \* an update of a value that is not in the document
+         ELSE LET done == FoldLeft(LAMBDA acc, c : IF ~Ok(acc) THEN acc
+                                     ELSE IF ~Exists(acc.doc, c.p) THEN Fail(acc, "unspec")  \* an earlier update removed the node
+                                     ELSE LET U == Ev(e.r, [s EXCEPT !.doc = acc.doc, !.ctx = <<c>>]) IN
+                                          IF ~Ok(U) THEN U ELSE [acc EXCEPT !.doc = U.doc],
+                                   [s EXCEPT !.doc = L.doc], L.ctx)
+              IN IF ~Ok(done) THEN done ELSE [s EXCEPT !.doc = done.doc]
     [] e.op = "SET_PATH" ->
          \* setpath(p; v): p is evaluated once, read-only, on the whole context and must give ONE path; for every context
          \* node v is evaluated read-only on it and must give ONE value, which is assigned at the path below the node
